@@ -686,6 +686,15 @@ func (s *Sim) RunTask(t *Task) {
 	}
 	if t.lastKind == KCall {
 		s.applyCall(t)
+		if t.done {
+			// the call killed its own process (crash injected while it was being applied)
+			s.progress++
+			s.lastRun = nil
+			if s.W != nil {
+				s.W.AfterStep()
+			}
+			return
+		}
 	}
 	s.resumeAndWait(t)
 	// fruitless polling does not count as progress
@@ -778,11 +787,10 @@ func (s *Sim) resumeAndWait(t *Task) {
 			r := DecodeReq(req)
 			s.mix(uint64(t.ID), 3, strHash(r.Op))
 			resp := s.handle(t, r)
-			putResp(t, EncodeResp(&resp))
-			if isDead(t) {
-				// killed by its own call (crash injected inside Handle): let it exit
-				continue
+			if t.done {
+				return // killed (and reaped) by its own call
 			}
+			putResp(t, EncodeResp(&resp))
 			continue
 		case KCall:
 			t.Data0 = req
